@@ -28,7 +28,7 @@ ASSUMPTIONS = ["exception classes are compared by subclass relation (e.g. IndexE
                "assigned values of another dtype are small non-negative integers so the cast is defined",
                "a result that is a memmap or based on one is reported without touching its memory"]
 EXHAUSTIVE = None
-MUST_HIT = ['array-from-create_temparray', 'idx:indexobj', 'zero-extent-in-non-first-axis', 'mode:r/ctx:r+', 'mode:r+/ctx:r+', 'mode:r/ctx:None', 'mode:r+/ctx:r', 'ctx:nested-mixed-modes', 'ctx:live-iterator', 'write:readonly', 'setmode', 'idx:pybool', 'iter:close', 'iter:drop', 'iter:exhaust', 'idx:npint', 'idx:mask', 'idx:fullmask', 'idx:intarr', 'idx:none', 'idx:ell', 'idx:int-out-of-range', 'failed-write', 'failed-read',
+MUST_HIT = ['write:signed-zero', 'write:same-values-sign-flipped', 'idx:indexobj-reentrant', 'array-from-create_temparray', 'idx:indexobj', 'zero-extent-in-non-first-axis', 'mode:r/ctx:r+', 'mode:r+/ctx:r+', 'mode:r/ctx:None', 'mode:r+/ctx:r', 'ctx:nested-mixed-modes', 'ctx:live-iterator', 'write:readonly', 'setmode', 'idx:pybool', 'iter:close', 'iter:drop', 'iter:exhaust', 'idx:npint', 'idx:mask', 'idx:fullmask', 'idx:intarr', 'idx:none', 'idx:ell', 'idx:int-out-of-range', 'failed-write', 'failed-read',
             'empty-array', 'ctx:none', 'ctx:open', 'ctx:nested', 'write:otherdt', 'write:row', 'idx:badtype', 'idx:too-many',
             'write:mask']
 
@@ -37,7 +37,7 @@ MUST_HIT = ['array-from-create_temparray', 'idx:indexobj', 'zero-extent-in-non-f
 def st_comp(draw, n):
     k = draw(st.sampled_from(['int', 'int', 'slice', 'slice', 'ell', 'full', 'none', 'intarr', 'mask', 'badtype', 'pybool', 'indexobj']))
     if k == 'indexobj':      # an object that is an integer only through __index__ (basic indexing for NumPy)
-        return {'t': 'indexobj', 'v': draw(st.integers(-n - 1, n))}
+        return {'t': draw(st.sampled_from(['indexobj', 'indexobj', 'indexobj-reentrant'])), 'v': draw(st.integers(-n - 1, n))}
     if k == 'pybool':        # a Python bool is a 0-d boolean mask for NumPy, not the integer 0/1
         return {'t': 'pybool', 'v': draw(st.booleans())}
     if k == 'int':
@@ -95,7 +95,7 @@ def st_case(draw):
         w = draw(st.sampled_from(['get', 'get', 'set']))
         a = {'k': w, 'idx': draw(st_index(shape))}
         if w == 'set':
-            a['val'] = {'k': draw(st.sampled_from(['scalar', 'row', 'otherdt', 'full', 'wrongshape', 'unconv'])), 's': draw(st.integers(0, 2 ** 31))}
+            a['val'] = {'k': draw(st.sampled_from(['scalar', 'row', 'otherdt', 'full', 'wrongshape', 'unconv', 'negzero', 'poszero', 'same'])), 's': draw(st.integers(0, 2 ** 31))}
         acc.append(a)
     mode = draw(st.sampled_from(['r+', 'r+', 'r']))
     # control operations woven into the accesses: contexts and live iterators entered with any access mode (nested in any
@@ -115,16 +115,23 @@ def st_case(draw):
             ops.append({'k': 'iterclose', 'how': draw(st.sampled_from(['close', 'drop', 'exhaust']))})
         ops.append(a_)
     return {'dt': draw(gens.st_dt()), 'shape': shape, 'seed': draw(st.integers(0, 2 ** 31)), 'ops': ops, 'mode': mode,
-            'via': draw(st.sampled_from([None, None, None, 'temparray']))}
+            'via': draw(st.sampled_from([None, None, None, 'temparray'])), 'zeros': draw(st.sampled_from([False, False, False, True]))}
 
 
 class _Row:
     """Not an int, but usable as one (operator.index): NumPy does basic indexing with it."""
-    def __init__(self, v):
+    def __init__(self, v, hook=None):
         self.v = int(v)
+        self.hook = hook
 
     def __index__(self):
+        if self.hook:
+            for f in self.hook:      # user code running in the middle of the access: it uses the same array object
+                f()
         return self.v
+
+
+_REENTER = []
 
 
 def build_idx(ix, shape):
@@ -138,6 +145,8 @@ def build_idx(ix, shape):
         return bool(ix['v'])
     if ix['t'] == 'indexobj':
         return _Row(ix['v'])
+    if ix['t'] == 'indexobj-reentrant':
+        return _Row(ix['v'], _REENTER)
     return gens.build_index(ix)
 
 
@@ -213,6 +222,8 @@ def execute(ctx, spec):
     with ctx.scratch() as d:
         path = os.path.join(d, 'a.darr')
         ref = gens.build_array(dt, shape, {'m': 'raw', 's': spec['seed']}).copy()
+        if spec.get('zeros'):
+            ref[...] = 0          # all cells +0 (what create_array fills with)
         if 0 in shape[1:]:
             out.cls('zero-extent-in-non-first-axis')
         # (an explicit chunk length: the default one is computed by dividing by the row size)
@@ -233,6 +244,10 @@ def execute(ctx, spec):
             out.viol('create-raised', f'asarray:{type(e).__name__}', f'asarray of shape {shape} in mode {spec["mode"]}: {type(e).__name__}: {e}')
             return out
         datafile = os.path.join(path, 'arrayvalues.bin')
+        # what a re-entrant index object does while the access it belongs to is running: re-assign the access mode the handle has,
+        # read an element, ask for the length
+        del _REENTER[:]
+        _REENTER.extend([lambda: setattr(a, 'accessmode', a.accessmode), lambda: len(a), lambda: a.shape])
         results = []      # (returned array, copy taken at return time)
 
         def leaks(tag):
@@ -319,6 +334,17 @@ def execute(ctx, spec):
                 elif vk == 'otherdt':
                     v = gens.build_array('complex128' if kind(dt.name) == 'c' else 'float64', tshape, {'m': 'safe', 's': acc['val']['s']})
                     out.cls('write:otherdt')
+                elif vk in ('negzero', 'poszero'):
+                    # zeros of either sign: equal as numbers to what zero cells hold, different as bit patterns (float / complex types)
+                    v = (-0.0 if vk == 'negzero' else 0.0) if kind(dt.name) in 'fc' else 0
+                    out.cls('write:signed-zero')
+                elif vk == 'same':
+                    # the value that is already there, sign of zeros flipped (a write that 'changes nothing' numerically)
+                    try:
+                        v = -np.asarray(probe[idx]) if kind(dt.name) in 'fc' else np.asarray(probe[idx]).copy()
+                    except Exception:
+                        v = 0
+                    out.cls('write:same-values-sign-flipped')
                 elif vk == 'wrongshape':
                     v = gens.build_array(dt, tuple(tshape) + (3,) if len(tshape) < 3 else (7, 5), {'m': 'safe', 's': acc['val']['s']})
                 else:
@@ -482,7 +508,7 @@ def fixed_specs():
     comps = [{'t': 'int', 'v': -1}, {'t': 'int', 'v': 9}, {'t': 'npint', 'v': 1}, {'t': 'slice', 'v': [None, None, -1]}, {'t': 'slice', 'v': [5, 1, None]},
              {'t': 'ell'}, {'t': 'none'}, {'t': 'intarr', 'v': [0, 0, -1]}, {'t': 'intlist', 'v': [1, 7]}, {'t': 'mask', 'v': [True, False, True]},
              {'t': 'mask', 'v': [True, False]}, {'t': 'str', 'v': 'a'}, {'t': 'float', 'v': 1.0}, {'t': 'dict'},
-             {'t': 'fullmask', 's': 3, 'wrong': False}, {'t': 'fullmask', 's': 3, 'wrong': True}, {'t': 'pybool', 'v': True}, {'t': 'pybool', 'v': False}, {'t': 'indexobj', 'v': 1}, {'t': 'indexobj', 'v': -1}]
+             {'t': 'fullmask', 's': 3, 'wrong': False}, {'t': 'fullmask', 's': 3, 'wrong': True}, {'t': 'pybool', 'v': True}, {'t': 'pybool', 'v': False}, {'t': 'indexobj', 'v': 1}, {'t': 'indexobj', 'v': -1}, {'t': 'indexobj-reentrant', 'v': 0}]
     # mode / context combinations with fixed accesses: a refused write on a read-only handle followed by a write inside an explicit
     # read-write block; reads inside read-only blocks and under read-only iterators; a read-write request nested in a read-only block
     W = {'k': 'set', 'idx': {'t': 'int', 'v': 0}, 'val': {'k': 'scalar', 's': 9}}
